@@ -26,6 +26,12 @@ STRENGTH = {
  "C15-4": "the driver search and initialisation inside open() (device.connect) counts as a driver call (dsim/w4.py)",
  "C16-4": "Type 2 Tags with more than one sector (SECTOR SELECT) in 30% of the t2 scenarios; faults on a lost packet 1 must be absorbed (checks/c16.py)",
  "C18-4": "the time seams raise ValueError for a negative sleep like time.sleep() does (dsim/kernel.py, dsim/w1/device.py)",
+ "C03-5": "Type 1 Tag layouts whose capability container declares a data area that ends before the chip memory does (dsim/w1/gen.py gen_t1, 12% of the layouts)",
+ "C05-5": "threaded walks: the client sends its first message right after connect() returned, while the server is still inside accept(); the accepted socket must return it (checks/c05.py)",
+ "C06-5": "handover messages with several records of which one ends exactly at a fragment end (checks/c06.py)",
+ "C08-5": "layout kind 'tlvwalk' for Type 1/2: NDEF message TLV placed so that tag, length field or value end around the last byte of the data area, both length formats, judged against an independent reading (checks/c08.py)",
+ "C12-5": "the card model may send several S(WTX) requests in a row before a block (dsim/w1/t4t.py wtx_repeat, checks/c12.py)",
+ "C16-5": "error bursts that start with one kind of error and persist as another one: the reason code must be the one of the error that persists (checks/c16.py)",
  "C20-4": "the NTAG21x model answers a wrong password with a NAK code drawn per run (0h, 1h, 4h, 5h) and a wrong password whose PACK ends in that code is tried (dsim/w1/t2t.py, checks/c20.py)",
 }
 rows = []
